@@ -269,7 +269,8 @@ class Out:
             if indent or (val == '}' and self.ser.prefs.indentClosingBrace):
                 self.out.append(self.ser._indentblock(val, self.ser._level + 1))
             else:
-                if val.endswith(' '):
+                if val.endswith(' ') and not val.endswith('\\ '):
+                    # (an escaped space at the end of a name is no S)
                     self._remove_last_if_S()
                 self.out.append(val)
 
